@@ -49,6 +49,7 @@ Section ListProofs.
     - destruct (vld_all vld vs) as [ys|] eqn:V; [|discriminate]. inversion H; subst.
       apply Forall_app. split; [exact F|eapply vld_all_P; exact V].
     - inversion H; subst. apply Forall_imul. exact F.
+    - discriminate H.
     - destruct (vld v) as [y|] eqn:V; [|discriminate]. inversion H; subst.
       apply Forall_insert; [eapply HP; exact V|exact F].
     - inversion H as [[H1 H2]]. destruct (pop l _) as [[x l2]|] eqn:E; cbn in H1; [|discriminate].
@@ -90,6 +91,7 @@ Section ListProofs.
     - inversion AN; subst. destruct (vld_all vld vs) as [ys|] eqn:V; [|discriminate]. inversion H; subst.
       pose proof (vld_all_length vld vs ys V). unfold zlen. rewrite app_length. lia.
     - inversion AN; subst. inversion H; subst. apply imul_length.
+    - discriminate H.
     - inversion AN; subst. destruct (vld v); [|discriminate]. inversion H; subst. apply insert_length.
     - inversion AN; subst. inversion H as [[H1 H2]].
       destruct (pop l _) as [[x l2]|] eqn:E; cbn in H1; [|discriminate]. inversion H1; subst.
@@ -123,7 +125,9 @@ Section ListProofs.
      exists an, announced l o = Ok an /\ match an with Some n => len_ok mn mx n = true | None => True end) \/
     (exists e, o_out ob = Raise e /\ o_after ob = l /\ o_events ob = []).
   Proof.
-    cbv zeta. unfold tlo_step. destruct (announced l o) as [[n|]|e] eqn:AN.
+    cbv zeta. destruct (tlo_step_split vld mn mx l o) as [(p & q & e & -> & E & _)|E]; rewrite E;
+      [right; exists e; cbn; auto|].
+    unfold tlo_step0. destruct (announced l o) as [[n|]|e] eqn:AN.
     - destruct (len_ok mn mx n) eqn:LO.
       + destruct (tl_after l o) as [[HO _]|(e & HO & HA & HE)].
         * left. split; [exact HO|]. split; [reflexivity|]. exists (Some n). auto.
@@ -944,3 +948,23 @@ Section NDictLawProofs.
     destruct (ndict_law_step m o I) as [H1 H2]. rewrite H1, (IH _ _ H2). reflexivity.
   Qed.
 End NDictLawProofs.
+
+(* ================= default values (first read of a never-assigned trait) ================= *)
+Lemma default_list_valid vk mn mx d l :
+  default_list vk mn mx d = Ok l -> law_default (DfList vk mn mx d (Ok l)) = [].
+Proof.
+  unfold default_list, law_default, start_ok. cbn [list_step].
+  destruct (len_ok mn mx (zlen d)) eqn:L; cbn [andb]; [|discriminate].
+  destruct (vld_all (vld_of vk) d) as [ys|] eqn:V; cbn; [|discriminate]. intros H. inversion H; subst.
+  assert (list_ok (dom_of vk) mn mx l = true) as ->; [|reflexivity].
+  unfold list_ok. apply andb_true_iff. split.
+  - apply forallb_Forall. eapply (vld_all_P (vld_of vk) (fun x => dom_of vk x = true)); [|exact V].
+    intros x y Hv. destruct vk; cbn in *.
+    + reflexivity.
+    + destruct ((0 <=? x) && (x <? 100)) eqn:E; inversion Hv; subst. exact E.
+    + destruct ((0 <=? x) && (x <? 100)) eqn:E; [inversion Hv; subst; exact E|].
+      destruct ((100 <=? x) && (x <? 200)) eqn:E2; [inversion Hv; subst; lia|].
+      destruct ((300 <=? x) && (x <? 400)) eqn:E3; inversion Hv; subst. lia.
+    + destruct ((0 <=? x) && (x <? 90)) eqn:E; inversion Hv; subst. lia.
+  - pose proof (vld_all_length (vld_of vk) d l V) as E. unfold zlen in *. rewrite E. exact L.
+Qed.
